@@ -140,6 +140,7 @@ pub open spec fn entry_wf(f: &Fsm, g: &GlobalData) -> bool {
     &&& forall|s: u32| valid_id(f, s) && is_compound(f, s) && st(f, s).initial != 0 ==> #[trigger] initial_ok(f, s)
     &&& forall|h: u32| valid_id(f, h) && is_history(f, h) ==> #[trigger] history_scope_ok(f, h)
     &&& forall|h: u32| hv_has(g, h) ==> #[trigger] hv_entry_ok(f, g, h)
+    &&& forall|s: u32| valid_id(f, s) && (#[trigger] st(f, s)).initial != 0 ==> valid_tr(f, st(f, s).initial)
 }
 
 pub open spec fn initial_ok(f: &Fsm, s: u32) -> bool {
@@ -311,4 +312,63 @@ proof fn spec_in_final_decreases(f: &Fsm, cfg: Seq<u32>, s: u32) {
             lemma_ht(f, c);
         }
     }
+}
+
+// ---- enterStates ---------------------------------------------------------------------------------
+/// the content ids enterStates collects for state s: onentry blocks, then the initial transition's content if s is
+/// entered by default, then the default history content registered for s
+pub open spec fn exe_spec(f: &Fsm, x: Ent, s: u32) -> Seq<u32> {
+    st(f, s).onentry@ + (if x.d.contains(s) && st(f, s).initial > 0 {
+        seq![tr(f, st(f, s).initial).content]
+    } else {
+        Seq::<u32>::empty()
+    }) + (if x.h.contains_key(s) {
+        seq![x.h[s]]
+    } else {
+        Seq::<u32>::empty()
+    })
+}
+
+pub open spec fn nz_pred() -> spec_fn(u32) -> bool {
+    |c: u32| c > 0
+}
+
+pub open spec fn entry_blocks(f: &Fsm, x: Ent, l: Seq<u32>) -> Seq<u32>
+    decreases l.len(),
+{
+    if l.len() == 0 {
+        Seq::empty()
+    } else {
+        entry_blocks(f, x, l.drop_last()) + exe_spec(f, x, l.last()).filter(nz_pred())
+    }
+}
+
+pub open spec fn entry_sorted(f: &Fsm, l: Seq<u32>) -> bool {
+    forall|i: int, j: int| 0 <= i < j < l.len() ==> st(f, #[trigger] l[i]).doc_id <= st(f, #[trigger] l[j]).doc_id
+}
+
+pub open spec fn is_late(f: &Fsm) -> bool {
+    f.binding == BindingType::Late
+}
+
+/// late binding: initializeDataModel(s, true) for the states entered for the first time, in entry order
+pub open spec fn late_inits(f: &Fsm, l: Seq<u32>) -> Seq<(u32, bool)>
+    decreases l.len(),
+{
+    if l.len() == 0 {
+        Seq::empty()
+    } else if is_late(f) && st(f, l.last()).isFirstEntry {
+        late_inits(f, l.drop_last()).push((l.last(), true))
+    } else {
+        late_inits(f, l.drop_last())
+    }
+}
+
+/// some entered state is a final child of the document root
+pub open spec fn root_final_in(f: &Fsm, l: Seq<u32>) -> bool {
+    exists|i: int| 0 <= i < l.len() && st(f, #[trigger] l[i]).is_final && st(f, l[i]).parent == f.pseudo_root
+}
+
+pub open spec fn empty_ent() -> Ent {
+    Ent { e: Seq::empty(), d: Seq::empty(), h: Map::empty() }
 }
